@@ -32,7 +32,7 @@ V03(c) ==
 OutVerdict(c, q, expset) ==
   LET pos == q.pos   \* position in the (converted) file of every output line, 0 = no such line (exact string match by the harness)
   IN IF q.status \in {"exception", "timeout"} THEN "internal_" \o q.status
-     ELSE IF expset = {} THEN (IF q.status = "exit" /\ q.pos = <<>> THEN "ok" ELSE "nothing_found_not_reported")
+     ELSE IF expset = {} THEN (IF q.status \in {"exit", "ok"} /\ q.pos = <<>> THEN "ok" ELSE "records_returned_although_nothing_matches")
      ELSE IF q.status # "ok" THEN "failed_although_records_match"
      ELSE IF \E k \in 1..Len(pos) : pos[k] = 0 THEN "record_content_differs"
      ELSE IF ~Increasing(pos) THEN "not_in_file_order_exactly_once"
